@@ -40,6 +40,7 @@ type jobList struct{ jobs []job }
 
 func (j *jobList) addFlow(sc FlowScenario) {
 	s := sc
+	normaliseZero(&s)
 	j.jobs = append(j.jobs, job{fam: "flow", sc: &s, run: func() any { return execFlowScenario(&s) }})
 }
 
